@@ -311,3 +311,98 @@ Proof.
   exists m. repeat split; auto. unfold default_clash in H5. rewrite Hd in H5. cbn [negb] in H5.
   rewrite andb_true_r in H5. exact H5.
 Qed.
+
+(* ---------- what a name in consumed_positional stands for ---------- *)
+Definition pos_match (e a : sig) (off : nat) (n : N) : Prop :=
+  exists j m t, nth_error e j = Some m /\ nth_error a (off + j) = Some t /\ pname t = n /\
+    is_positional (pkind t) = true /\ default_clash m t = false /\
+    ((pkind m = PO) \/ (pkind m = POK /\ pkind t = POK /\ pname m = pname t)).
+
+Lemma sca_loop_cpos : forall a e i st st',
+  sca_loop a i st e = Some st' ->
+  forall n, memN n (cpos st') = true -> memN n (cpos st) = true \/ pos_match e a i n.
+Proof.
+  intros a. induction e as [|m0 r IH]; intros i st st' H n Hn.
+  - cbn in H. injection H as <-. left. assumption.
+  - cbn [sca_loop] in H. destruct (sca_step a i st m0) as [st1|] eqn:Es; [|discriminate].
+    destruct (IH _ _ _ H n Hn) as [Hin|(j & m & t & H1 & H2 & H3 & H4 & H5 & H6)].
+    + assert (Hstep : memN n (cpos st) = true \/
+                      exists t, nth_error a i = Some t /\ pname t = n /\ is_positional (pkind t) = true /\
+                        default_clash m0 t = false /\
+                        ((pkind m0 = PO) \/ (pkind m0 = POK /\ pkind t = POK /\ pname m0 = pname t))).
+      { unfold sca_step in Es.
+        destruct (pkind m0) eqn:Ek.
+        - (* PO *) destruct (nth_error a i) as [t|] eqn:En.
+          + destruct (is_positional (pkind t)) eqn:Et.
+            * destruct (default_clash m0 t) eqn:Ec; [discriminate|]. injection Es as <-.
+              cbn [cpos] in Hin. rewrite memN_cons in Hin. apply orb_true_iff in Hin as [Hin|Hin]; [|left; exact Hin].
+              apply N.eqb_eq in Hin. right. exists t. repeat split; auto.
+            * destruct (param_of_kind VP a) as [va|]; [|discriminate]. injection Es as <-. left. exact Hin.
+          + destruct (param_of_kind VP a) as [va|]; [|discriminate]. injection Es as <-. left. exact Hin.
+        - (* POK *)
+          assert (Habs : forall s1, (if (match param_of_kind VP a with Some _ => true | None => false end)
+                                        && (match param_of_kind VK a with Some _ => true | None => false end)
+                                     then Some (opt_obl (param_of_kind VK a) (pname m0) (opt_obl (param_of_kind VP a) (pname m0) st))
+                                     else None) = Some s1 -> cpos s1 = cpos st).
+          { intros s1 E. destruct (_ && _); [|discriminate]. injection E as <-.
+            destruct (param_of_kind VK a), (param_of_kind VP a); reflexivity. }
+          destruct (nth_error a i) as [t|] eqn:En.
+          + destruct (pkind t) eqn:Et; try discriminate;
+              try (left; rewrite <- (Habs _ Es); exact Hin).
+            destruct (N.eqb (pname m0) (pname t)) eqn:Enm; [|discriminate]. cbn [negb] in Es.
+            destruct (default_clash m0 t) eqn:Ec; [discriminate|]. injection Es as <-.
+            cbn [cpos] in Hin. rewrite memN_cons in Hin. apply orb_true_iff in Hin as [Hin|Hin]; [|left; exact Hin].
+            apply N.eqb_eq in Hin. apply N.eqb_eq in Enm. right. exists t.
+            split; [reflexivity|]. split; [congruence|]. split; [rewrite Et; reflexivity|].
+            split; [assumption|]. right. repeat split; auto.
+          + left. rewrite <- (Habs _ Es). exact Hin.
+        - (* VP *) destruct (param_of_kind VP a); [|discriminate]. injection Es as <-. left. exact Hin.
+        - (* KO *)
+          destruct (find_param (pname m0) a) as [t|].
+          + destruct (is_kw_target (pkind t)).
+            * destruct (default_clash m0 t); [discriminate|]. injection Es as <-. left. exact Hin.
+            * destruct (param_of_kind VK a); [|discriminate]. injection Es as <-. left. exact Hin.
+          + destruct (param_of_kind VK a); [|discriminate]. injection Es as <-. left. exact Hin.
+        - (* VK *) destruct (param_of_kind VK a); [|discriminate]. injection Es as <-. left. exact Hin. }
+      destruct Hstep as [Hs|(t & H1 & H2 & H3 & H4 & H5)]; [left; exact Hs|].
+      right. exists 0, m0, t. rewrite Nat.add_0_r. repeat split; auto.
+    + right. exists (S j), m, t. replace (i + S j) with (S i + j) by lia. repeat split; auto.
+Qed.
+
+Lemma nodup_nth_inj : forall (a : sig) i j x,
+  names_nodup (map pname a) = true -> nth_error a i = Some x -> nth_error a j = Some x -> i = j.
+Proof.
+  induction a as [|y a IH]; intros i j x Hnd Hi Hj; [destruct i; discriminate|].
+  cbn [map names_nodup] in Hnd. apply andb_true_iff in Hnd as [Hy Hnd]. apply negb_true_iff in Hy.
+  assert (Hfresh : forall k, nth_error a k = Some y -> False).
+  { intros k Hk. assert (memN (pname y) (map pname a) = true); [|congruence].
+    apply memN_true_iff. apply in_map. eapply nth_error_In; eassumption. }
+  destruct i, j; cbn in Hi, Hj; auto.
+  - injection Hi as <-. exfalso. eauto.
+  - injection Hj as <-. exfalso. eauto.
+  - f_equal. eapply IH; eassumption.
+Qed.
+
+(* every required positional-only parameter of the accepted callable, at list index j,
+   faces a required positional-only parameter of the expected signature at index j:
+   every call the expected signature binds passes it positionally *)
+Theorem accept_required_posonly : forall e a,
+  valid_sig a = true -> kinds_ok e a = true ->
+  forall j q, nth_error a j = Some q -> pkind q = PO -> pdefault q = false ->
+  exists m, nth_error e j = Some m /\ pkind m = PO /\ pdefault m = false.
+Proof.
+  intros e a Hv H j q Hq Hk Hd. unfold valid_sig in Hv. apply andb_true_iff in Hv as [_ Hnd].
+  unfold kinds_ok, sca in H.
+  destruct (sca_loop a 0 (mkC [] [] [] []) e) as [st|] eqn:E; [|discriminate].
+  destruct (forallb (extra_required_ok st) a) eqn:Ef; [|discriminate].
+  rewrite forallb_forall in Ef. specialize (Ef q (nth_error_In _ _ Hq)). unfold extra_required_ok in Ef.
+  rewrite Hk, Hd in Ef. cbn [is_var orb] in Ef.
+  destruct (sca_loop_cpos _ _ _ _ _ E _ Ef) as [Habs|(j' & m & t & H1 & H2 & H3 & H4 & H5 & H6)]; [discriminate|].
+  cbn [Nat.add] in H2.
+  assert (t = q) by (eapply nodup_same_name; eauto using nth_error_In). subst t.
+  assert (j' = j) by (eapply nodup_nth_inj; eassumption). subst j'.
+  exists m. split; [assumption|].
+  destruct H6 as [Hm|(Hm & Hq' & _)]; [|congruence].
+  split; [assumption|]. unfold default_clash in H5. rewrite Hd in H5. cbn [negb] in H5.
+  rewrite andb_true_r in H5. exact H5.
+Qed.
